@@ -243,6 +243,11 @@ func (ex *Exec) builtin(fr *Frame, st *State, b *ssa.Builtin, cc *ssa.CallCommon
 	case "panic":
 		ex.oblige(fr, st, "panic", "", "false", pos, "explicit panic reachable: "+ex.srcLine(pos))
 	case "print", "println", "recover", "close":
+		if b.Name() == "close" {
+			// call-site event "close": arg0 the channel (closing a nil or closed channel panics; whether a channel
+			// is already closed is not modelled - contracts state when a close may happen)
+			ex.checkCallSites(fr, st, "close", args, pos)
+		}
 		if res != nil {
 			set(ex.freshVal(b.Name(), res.Type()))
 		}
